@@ -99,6 +99,7 @@ type Enc struct {
 	disabledCands map[string]bool
 	inContractEval bool
 	mathInts    bool // mode math: integers are unbounded mathematical integers (no range facts assumed)
+	rc          *ReplayCtx
 }
 
 type dbgRef struct {
@@ -1045,6 +1046,7 @@ func (e *Enc) oblige(kind, anchor string, pos token.Pos, reach, cond, descr stri
 		o.Pos = fmt.Sprintf("%s:%d", relPath(p.Filename, e.P.Dir), p.Line)
 	}
 	o.SMT = e.query(e.curBlock, and(reach, not(cond)))
+	o.RC = e.replayCtx()
 	e.obls = append(e.obls, o)
 }
 
